@@ -1747,27 +1747,14 @@ func (ctx *RenderContext) evaluateBinaryOp(operator string, left, right interfac
 				caseInsensitive = true
 				pattern = pattern[1 : len(pattern)-2]
 			} else if pattern[len(pattern)-1] == '/' {
-				// Check for /pattern/i format (i before the slash)
-				if len(pattern) >= 4 && pattern[len(pattern)-2] == 'i' {
-					caseInsensitive = true
-					pattern = pattern[1 : len(pattern)-2]
-				} else {
-					// Regular /pattern/ without flags
-					pattern = pattern[1 : len(pattern)-1]
-				}
+				// Regular /pattern/ without flags (a pattern that ends in the
+				// letter i, as /taxi/ does, has no flag either)
+				pattern = pattern[1 : len(pattern)-1]
 			}
 		}
 
-		// Handle escaped character sequences
-		pattern = strings.ReplaceAll(pattern, "\\\\", "\\")
-
-		// Special handling for regex character classes
-		// When working with backslashes in strings, we need 2 levels of escaping
-		// 1. In Go source, \d is written as \\d
-		// 2. After string processing, we need to handle it specially
-		pattern = strings.ReplaceAll(pattern, "\\d", "[0-9]")        // digits
-		pattern = strings.ReplaceAll(pattern, "\\w", "[a-zA-Z0-9_]") // word chars
-		pattern = strings.ReplaceAll(pattern, "\\s", "[ \\t\\n\\r]") // whitespace
+		// The pattern is handed to the regexp package as it is: \d, \w and \s
+		// are classes there, inside brackets too, and \\ is a literal backslash
 
 		// Compile the regex with appropriate flags
 		var regex *regexp.Regexp
